@@ -17,4 +17,13 @@ CLAIMS = {
     text="Exactly the property's equivalent formulation is decided: the 793 feature keys (tables discovered from the writers, values as const-evaluated by rustc) have no vanishing XOR of 1..4 distinct keys (all 314028 pair XORs hashed), and each key-table dimension is indexed by a direct cast of a distinct enum parameter whose variant count equals the array length.",
     note="Trusts rustc const evaluation of the key constant and C10's lock-step result that features map to keys as assumed.",
     technique="static analysis: exhaustive XOR-independence audit of compile-time constants + index-provenance rule on the writers' MIR"),
+
+ "C01": dict(level="other",
+    text="Every generator is executed symbolically on all paths (both IN_CHECK values, three slider instances) and each batch handed to the listener -- origin set, destination set, delivery guard -- is compared with a rules-of-chess specification by Boolean equivalence over set atoms; dispatch on the checker count, roster, king safety (all five attacker kinds, own king lifted), castling preconditions and their FIDE sets for every Chess960 geometry, and a panic audit of the whole generation path are decided the same way. These are necessary conditions: the exact legal-move set also needs the invariants of C03/C06 and the tables of C05, and that composition is argued, not mechanised.",
+    note="Spec written in cva/rules/movegen.py is the trusted definition; atoms of the set algebra are treated as independent (sound for proving equality).",
+    technique="static analysis: symbolic execution of MIR + Boolean set-algebra equivalence against a specification; interval-based panic audit"),
+ "C16": dict(level="other",
+    text="Mask threading (mask is a conjunct of every origin set), the abort contract (every listener result branched on, true returns true with no further call, on all paths), non-empty batches (dominating emptiness test of the delivered set) and the loop structure behind the 18-batch bound are decided on all paths of all generator instances; exactness of the move set is C01's.",
+    note="The numeric bound 18 additionally uses <=16 pieces per side (C06) and <=2 squares per pawn-attack set (C05).",
+    technique="static analysis: symbolic path enumeration over generator MIR (must-test/abort-edge rule, set-algebra subset/disjointness)"),
 }
